@@ -161,6 +161,12 @@ class Loader(yaml.SafeLoader):
 
         recognized_type = next(iter(recognized_types))
 
+        # don't read an enum value as a bool but as a string
+        if (recognized_type in self._registered_classes.values()
+                and issubclass(recognized_type, enum.Enum)
+                and node.tag == 'tag:yaml.org,2002:bool'):
+            node.tag = 'tag:yaml.org,2002:str'
+
         # remove syntactic sugar
         logger.debug('Savorizing node {}'.format(node))
         if recognized_type in self._registered_classes.values():
